@@ -8,6 +8,7 @@ from sa.model import AnalysisError, calls_in, kwarg, arg_or_kw
 from sa.paths import function_paths, end_kind
 from sa.util import U, writes_of, envs_along, call_is, TupleItem, Env, names_in
 from rules import conventions as conv
+from rules import wiring
 
 EXPLANATION = (
     "C03: exhaustive case table lookup-sentinel x keep_missed for Histogram1D.fill / HistogramND.fill "
@@ -286,6 +287,9 @@ def run(ctx):
                                 ok1 = True
             env.step(step)
     ctx.check(ok1, "C03.f", "Histogram1D.fill_n:mask", "weights filtered by the values' own NaN mask", why, fn1.where)
+    # the 1-D batch path drops entries through the generic extractor: its mask and flattening order are part of the clause
+    wiring.mask_definition(ctx, "C03.f", m.func("_construction", "extract_1d_array"), "extract_1d_array:mask", rowwise=False)
+    wiring.flatten_order(ctx, "C03.f", m, "flattening:C-order")
     okn, whyn = _nd_mask(fnn)
     ctx.check(okn, "C03.f", "HistogramND.fill_n:mask", whyn, whyn, fnn.where)
 
@@ -294,7 +298,6 @@ def run(ctx):
     from rules import c13
     c13.check_fill_coercion(ctx, "C03.e", m)
     # polarity / axis of the ND row mask
-    from rules import wiring
     pol = None
     for n in ast.walk(fnn.node):
         if isinstance(n, ast.Assign) and isinstance(n.value, ast.UnaryOp) and "isnan" in U(n.value):
